@@ -214,7 +214,19 @@ def _task(descs):
             kind, val = outs[0][1]
             if kind == 'raise':
                 if type(val).__name__ == 'CannotBeRepeatedException':
-                    cnt['cannot_be_repeated'] += 1     # legitimacy is C09's question
+                    cnt['cannot_be_repeated'] += 1
+                    # whether a buried anchor justifies it is C09's question; an operand without any anchor or positive lookaround,
+                    # or a bound that cannot repeat, never does - then the quantifier simply failed to match k repetitions
+                    try:
+                        from ..monitors import _has_anchor_or_poslook
+                        clean = not _has_anchor_or_poslook(rx.parse(X).tree)
+                    except re.error:
+                        clean = False
+                    if clean or (hi is not None and hi <= 1):
+                        viol.append(V('C04|refused|' + label,
+                                      f"{x.expr}: {name}{args} raised CannotBeRepeatedException although " +
+                                      ('the operand contains no anchor or positive lookaround' if clean else 'the bound cannot repeat'),
+                                      code_for(outs[0][0])))
                 else:
                     viol.append(V('C04|raised|' + label, f"{x.expr}: {name}{args} raised {type(val).__name__}",
                                   code_for(outs[0][0])))
